@@ -104,4 +104,56 @@ theorem fine_counter_partial (n : Nat) (hn : n ≤ usizeMax) (ops : List Op) :
   rw [hk]
   exact ⟨(inv_run _ ops (inv_init n hn)).core.cnt, rfl⟩
 
+/-! ### "never too LOW" — the direction that matters for deadlocks
+
+  A counter that is too low closes the gate although an open channel is empty; the senders of the
+  other channels then park while that channel's sender and receiver wait for each other.  For the
+  two-phase-drop model the counter can only be too HIGH (see above).  The universal statement is
+  `fine_counter_never_low` below; it is NOT proved (same missing invariant as
+  `fine_counter_statement`, of which it is the first half).  What is kernel-checked here is the
+  statement for all two-phase histories of length ≤ 3 (full alphabet) and ≤ 4 (core alphabet) over
+  two channels (bounded tests, 2 955 + 11 111 histories), and the real code is probed for it by the race sweeps of `harness/hplan/src/rt15.rs`. -/
+
+/-- the counter never undercounts the open-and-empty channels, under every interleaving of the two
+    phases of a sender drop with everything else -/
+def fine_counter_never_low : Prop :=
+  ∀ (n : Nat) (ops : List FOp), n ≤ usizeMax →
+    trueCount (frun (finit n) ops).1.s ≤ (frun (finit n) ops).1.s.empty
+
+/-- alphabet of the bounded check (one waiter id / value per op is enough: neither influences the
+    counter) -/
+def alphabet2 : List FOp :=
+  [0, 1].flatMap (fun c =>
+    [.atomic (.send c c 7), .atomic (.recv c (2 + c)), .atomic (.clone c), .atomic (.dropTx c),
+     .atomic (.dropRx c), .dropTxBegin c, .dropTxFinish c])
+
+/-- the same without `clone` and without the atomic sender drop (= begin; finish back to back) -/
+def alphabet2core : List FOp :=
+  [0, 1].flatMap (fun c =>
+    [.atomic (.send c c 7), .atomic (.recv c (2 + c)), .atomic (.dropRx c), .dropTxBegin c,
+     .dropTxFinish c])
+
+def seqsOver (al : List FOp) : Nat → List (List FOp)
+  | 0 => [[]]
+  | k + 1 => [] :: al.flatMap (fun a => (seqsOver al k).map (a :: ·))
+
+def seqsUpTo (k : Nat) : List (List FOp) := seqsOver alphabet2 k
+
+def neverLowOn (ops : List FOp) : Bool :=
+  let f := (frun (finit 2) ops).1
+  decide (trueCount f.s ≤ f.s.empty) && (f.s.sendWakers.isNone || f.s.empty == 0)
+
+/-- bounded test of `fine_counter_never_low` (and of "gate closed ⇒ counter 0"): every two-phase
+    history of length ≤ 3 over two channels with the full alphabet (2 955 histories), and of length
+    ≤ 4 with the core alphabet send / recv / dropRx / dropTxBegin / dropTxFinish (11 111 histories) -/
+theorem fine_counter_never_low_upto3 : (seqsUpTo 3).all neverLowOn = true := by decide +kernel
+
+theorem fine_counter_never_low_core_upto4 : (seqsOver alphabet2core 4).all neverLowOn = true := by
+  decide +kernel
+
+/-- … while "never too HIGH" already fails at length 3 (the witness above) -/
+theorem fine_counter_too_high_at3 :
+    (seqsUpTo 3).any (fun ops => let f := (frun (finit 2) ops).1; decide (trueCount f.s < f.s.empty)) = true := by
+  decide +kernel
+
 end DfModel.Props.C15Fine
